@@ -153,9 +153,14 @@ def run_one(seed, tape, opts):
     a = w.add_client("A", api="deferred")
     server_np = {}
 
+    latest_list = {}
+
     def on_server_msg(c, msg):
         if msg.get("type") == "allocated":
             server_np[c.name] = msg["nameplate"]
+        elif msg.get("type") == "nameplates":
+            latest_list[c.name] = set(n["id"] for n in msg["nameplates"])
+            sim.ev("list", c.name, len(latest_list[c.name]))
     w.on_server_msg = on_server_msg
     claims_seen = lambda c: [m for (_, side, m) in w.server.command_log  # noqa
                              if side == c.side and m["type"] == "claim"]
@@ -200,6 +205,15 @@ def run_one(seed, tape, opts):
     if case == "history":
         b = w.add_client("B", api=tape.pick(("deferred", "delegate"), "apib"))
         ca.pick_faults(tape, w, ("cut", "server_restart"), 2)
+        if tape.choose(2, "third") == 0:
+            # somebody else's nameplate comes and goes while B is typing: the
+            # server's list shrinks between two refreshes
+            c3 = w.add_client("C", api="deferred")
+            c3.script = [("wait_steps", tape.choose(40, "c3w0")),
+                         ("set_code", tape.pick(("10101", "120120", "909"),
+                                                "c3np") + "-x-y"),
+                         ("wait_steps", 5 + tape.choose(120, "c3w1")),
+                         ("close",)]
     sim.run(2000, until=lambda: a.has("code") and w.scripts_done(),
             max_time=300) if b is None else None
     hist = []
@@ -220,10 +234,10 @@ def run_one(seed, tape, opts):
             return "-".join(parts)
         ops = [("input",)]
         for _ in range(2 + tape.choose(10, "nh")):
-            k = tape.choose(7, "hk")
-            if k == 0:
+            k = tape.choose(9, "hk")
+            if k in (0, 7):
                 ops.append(("h", "refresh_nameplates"))
-            elif k == 1:
+            elif k in (1, 8):
                 ops.append(("h", "get_nameplate_completions",
                             tape.pick(("", "1", "2", "9", "x", "12"), "npp")))
             elif k == 2:
@@ -321,6 +335,19 @@ def run_one(seed, tape, opts):
                 model["phase"] = "done"
                 model["words"] = arg
             elif name == "get_nameplate_completions":
+                if "B" in latest_list:
+                    want_c = set(n + "-" for n in latest_list["B"]
+                                 if n.startswith(arg))
+                    if set(res) != want_c:
+                        VV("C19.nameplate_completions_vs_server_list",
+                           "nameplate completions are the nameplates of the "
+                           "server's current list that extend what was typed "
+                           "(choosing one yields a code a peer's "
+                           "allocate_code could have produced)",
+                           "prefix %r: offered %r, server's latest list %r" %
+                           (arg, sorted(res), sorted(latest_list["B"])))
+                    if len(latest_list["B"]) > 0:
+                        sim.note("probe.completions_checked_against_list")
                 for cpl in res:
                     if not cpl.startswith(arg) or not cpl.endswith("-") or \
                             not cpl[:-1].isdigit():
